@@ -171,7 +171,7 @@ def run_check(prop, tier, seed, shards=None, replay=None):
                      f"(observed {cnt}x in this run)")
     for mech in sorted(unlisted):
         slug = "".join(ch if ch.isalnum() or ch in "-_." else "_" for ch in mech)[:80]
-        path = os.path.join(REPLAYS, f"{prop}-{slug}-seed{seed}-{tier}.json")
+        path = os.path.join(REPLAYS, f"{prop}-{slug}-seed{seed}-{tier}{'-replayed' if replay is not None else ''}.json")
         with open(path, "w") as f:
             json.dump({"property": prop, "mechanism": mech, "count": unlisted[mech], "seed": seed,
                        "tier": tier, "witnesses": m["violations"].get(mech, []),
@@ -208,6 +208,9 @@ def run_check(prop, tier, seed, shards=None, replay=None):
           "wall_s": round(wall, 2), "violations": int(nviol)}
     if replay is None and not os.environ.get("VERIF_NO_EVIDENCE"):
         write_evidence(prop, ev)
+    if replay is not None:
+        # show what the monitors saw on the replayed case
+        print(json.dumps({k: v[:2] for k, v in m["violations"].items()}, indent=1)[:6000])
     for ln in lines:
         print(ln)
     for r in inconclusive:
